@@ -47,7 +47,7 @@ pub fn compile(files_hex: &str, options: &str) -> Option<Compiled> {
     Some(Compiled { state, options: opts })
 }
 
-fn span4(s: &Span) -> String { format!("{}:{}:{}:{}", s.start.row, s.start.col, s.end.row, s.end.col) }
+pub fn span4(s: &Span) -> String { format!("{}:{}:{}:{}", s.start.row, s.start.col, s.end.row, s.end.col) }
 
 // ------------------------------------------------------------------------------------------------
 // attributes
